@@ -98,6 +98,8 @@ class FieldArrayModel(FieldCompositeModel):
         FieldCompositeModel.post_randomize(self, visited)
         self.sum_expr = None
         self.sum_expr_btor = None
+        self.product_expr = None
+        self.product_expr_btor = None
         
         if self.is_rand_sz and self.is_scalar:
             # The list was pre-extended to the largest size its bounds 
